@@ -6,15 +6,16 @@ separated by single blanks that contain none of v's syntax delimiters and do not
   fixpoint  : s = fmt_v.join(t);  fmt_v.join(parse_to_tree(s, fmt_v.split)) == s
   join-text : (brace vendors) fmt_v.join(t) is literally the brace text of t as the reference renderer below writes it
   device    : a device-style text of t written by an independent reference renderer (this file, from the syntax description
-              of the vendor family: 1-blank indentation with '!'/'#' separator lines, braces with ';' and end-of-line remarks,
+              of the vendor family: 1-blank indentation with '!'/'#' separator lines, braces with ';',
               the Nokia `configure { }` wrapper, RouterOS `/path` sections) parses to t, and re-rendering the parsed config
               with fmt_v.join and parsing again gives the same tree.
 The expectation is always the enumerated tree itself (or, for the fixed points, the first text / first parse): nothing is
 computed with the code under test.  parse_to_tree is called the way annet.gen / annet.api call it (default comments).
 
 Failure keys: bounded:C04:<vendor>:<roundtrip|fixpoint|device-text|device-fixpoint>[:<class>] where <class> names the kind
-of tree when it uses vendor keyword rows (cisco address-family with/without its exit line, huawei xpl, iosxr rpl) or, for
-RouterOS, sections nested in sections."""
+of tree when it uses vendor keyword rows (cisco address-family closed by its exit-address-family row, huawei xpl, iosxr rpl) or, for
+RouterOS, sections nested in sections.  Outside the domain by decision of the lead: a cisco address-family block without its
+exit row, a childless top level RouterOS row, device texts with end-of-line remarks or /* */ annotations."""
 import hashlib
 import json
 import random
@@ -138,7 +139,9 @@ def _keyword(vendor, cls, i, j, d, has_children):
 
 
 KEYWORD_CLASSES = {
-    "cisco": ["address-family", "address-family-without-exit"],
+    # for cisco `address-family ...` opens a block that `exit-address-family` closes: in the well-formed domain the block
+    # always carries its exit row
+    "cisco": ["address-family"],
     "huawei": ["xpl"],
     "h3c": ["xpl"],
     "iosxr": ["rpl"],
@@ -208,8 +211,6 @@ def tree_class(vendor, lst, scheme):
             return any(ch and (d >= 1 or nested(ch, d + 1)) for _, ch in l)
         if nested(lst, 0):
             return "nested-sections"
-        if any(not ch for _, ch in lst):
-            return "top-level-row"
     return ""
 
 
@@ -217,8 +218,7 @@ def tree_class(vendor, lst, scheme):
 DEVICE_VARIANTS = {}
 for _v in INDENT:
     DEVICE_VARIANTS[_v] = ("plain", "separators")
-DEVICE_VARIANTS.update(juniper=("plain", "eol-remark", "annotation", "annotation-top"),
-                       ribbon=("plain", "eol-remark", "annotation", "annotation-top"),
+DEVICE_VARIANTS.update(juniper=("plain",), ribbon=("plain",),
                        nokia=("plain", "configure-wrapper"), routeros=("plain", "header"))
 
 
@@ -241,26 +241,20 @@ def ref_render(lst, vendor, variant):
         walk(lst, 0)
     elif vendor in BRACES:
         semi = "" if vendor == "nokia" else ";"
-        remark = {"juniper": " ## SECRET-DATA", "ribbon": " # SECRET-DATA", "nokia": ""}[vendor]
         base = 1 if variant == "configure-wrapper" else 0
         if variant != "plain":
             lines.append("# header remark")
         if base:
             lines.append("configure {")
-        counter = [0]
 
         def walkb(l, d):
             for row, ch in l:
-                i = counter[0]
-                counter[0] += 1
-                if i % 3 == 1 and (variant == "annotation-top" or (variant == "annotation" and d > 0)):
-                    lines.append("    " * d + "/* note %d */" % i)
                 if ch:
                     lines.append("    " * d + row + " {")
                     walkb(ch, d + 1)
                     lines.append("    " * d + "}")
                 else:
-                    lines.append("    " * d + row + semi + (remark if (variant == "eol-remark" and i % 2 == 0) else ""))
+                    lines.append("    " * d + row + semi)
         walkb(lst, base)
         if base:
             lines.append("}")
@@ -288,10 +282,6 @@ def ref_render(lst, vendor, variant):
                     lines.append(row)
         walkr(lst, [])
     return "\n".join(lines)
-
-
-def _no_comment_rows(lst):
-    return [[row, _no_comment_rows(ch)] for row, ch in lst if not row.startswith("/*")]
 
 
 # ===== the checks
@@ -340,8 +330,7 @@ def check_case(vendor, lst, scheme="", checks=("roundtrip", "fixpoint", "device"
             except Exception as e:  # pylint: disable=broad-except
                 out.append(("device-text" + vcls, False, lst, dict(text=text, parsed="%s: %s" % (type(e).__name__, e))))
                 continue
-            seen = _no_comment_rows(got) if variant.startswith("annotation") else got
-            out.append(("device-text" + vcls, seen == lst, lst, dict(text=text, parsed=got)))
+            out.append(("device-text" + vcls, got == lst, lst, dict(text=text, parsed=got)))
             try:
                 again = to_list(parse(vendor, f.join(p)))
             except Exception as e:  # pylint: disable=broad-except
@@ -352,8 +341,13 @@ def check_case(vendor, lst, scheme="", checks=("roundtrip", "fixpoint", "device"
 
 def _bounds(tier):
     if tier == "quick":
-        return dict(depth=3, width=3, nodes=13, full3=False, nrandom=3000)
-    return dict(depth=5, width=3, nodes=11, full3=True, nrandom=60000)
+        return dict(depth=3, width=3, nodes=11, full3=0, nrandom=3000)
+    return dict(depth=5, width=3, nodes=11, full3=22, nrandom=60000)
+
+
+def in_domain(vendor, shape):
+    """RouterOS: section words, then leaf rows - a childless top level row is neither"""
+    return vendor != "routeros" or all(t for t in shape)
 
 
 def cases(tier, seed):
@@ -361,16 +355,20 @@ def cases(tier, seed):
     b = _bounds(tier)
     for shape, _size in forests(b["depth"], b["nodes"], b["width"]):
         for vendor in VENDORS:
+            if not in_domain(vendor, shape):
+                continue
             for scheme in schemes(vendor):
                 yield vendor, scheme, shape, scheme in ("A0", "B")
     if b["full3"]:
-        # every shape of depth <= 3 with <= 3 rows per level above the node cap: all labellings up to the quick tier's cap
-        # (so that thorough covers quick), one labelling beyond
+        # shapes of depth <= 3 with <= 3 rows per level above the node cap, up to full3 nodes (all 621436 shapes up to 39 nodes
+        # cost ~45 cpu minutes): all labellings up to the quick tier's cap (so that thorough covers quick), one labelling beyond
         q = _bounds("quick")["nodes"]
-        for shape, size in forests(3, 39, 3):
+        for shape, size in forests(3, b["full3"], 3):
             if size <= b["nodes"]:
                 continue
             for vendor in VENDORS:
+                if not in_domain(vendor, shape):
+                    continue
                 if size <= q:
                     for scheme in schemes(vendor):
                         yield vendor, scheme, shape, scheme in ("A0", "B")
@@ -380,6 +378,8 @@ def cases(tier, seed):
     for n in range(b["nrandom"]):
         shape = random_shape(rnd, rnd.randint(2, 6), rnd.randint(2, 5), [rnd.randint(4, 40)])
         vendor = VENDORS[n % len(VENDORS)]
+        if not in_domain(vendor, shape):
+            shape = tuple(t if t else ((),) for t in shape)     # RouterOS: give every top level section a row
         sch = schemes(vendor)
         yield vendor, sch[rnd.randrange(len(sch))], shape, True
 
@@ -420,17 +420,17 @@ def run(tier="quick", seed=0, part=0, nparts=1):
     return dict(evaluations=ev, nontrivial=sorted(nontrivial), failures=failures, samples=samples,
                 rule="for each of the 14 registry vendors: every ordered tree shape of depth <= %d, <= %d rows per level and <= %d "
                      "nodes%s, labelled from the vendor's safe alphabet in 3 ways (distinct rows, rotated, same rows in every "
-                     "block) plus vendor keyword rows at every third node (cisco address-family with and without its exit line, "
-                     "huawei/h3c xpl, iosxr route-policy; RouterOS: section words for inner nodes, command rows for leaves); "
+                     "block) plus vendor keyword rows at every third node (cisco address-family blocks closed by their exit-address-family row, "
+                     "huawei/h3c xpl, iosxr route-policy; RouterOS: section words for inner nodes, command rows for leaves, no childless top level row); "
                      "plus %d seeded random trees (depth <= 6, <= 5 rows per level, <= 40 nodes); each case: join->parse "
-                     "round trip, join fixed point, and (for the plain labellings) 2-4 device style texts written by a reference "
-                     "renderer (separator lines, end-of-line remarks, annotations, configure{} wrapper, /path sections); non-trivial = nesting depth >= 2; distinct by (vendor, tree)"
+                     "round trip, join fixed point, and (for the plain labellings) 1-2 device style texts written by a reference "
+                     "renderer (plain, separator lines, configure{} wrapper, /path sections); non-trivial = nesting depth >= 2; distinct by (vendor, tree)"
                      % (b["depth"], b["width"], b["nodes"],
-                        " and every shape of depth <= 3 / <= 3 rows per level without the node cap (all labellings up to 13 nodes, one "
-                        "beyond, there the fixed point is evaluated only after a round trip mismatch)" if b["full3"] else "",
+                        (" and every shape of depth <= 3 / <= 3 rows per level up to %d nodes (all labellings up to %d nodes, one "
+                         "beyond, there the fixed point is evaluated only after a round trip mismatch)" % (b["full3"], _bounds("quick")["nodes"])) if b["full3"] else "",
                         b["nrandom"]),
                 bound="depth<=%d, <=%d rows/level, <=%d nodes%s; random to 40 nodes"
-                      % (b["depth"], b["width"], b["nodes"], "; depth<=3 uncapped" if b["full3"] else ""))
+                      % (b["depth"], b["width"], b["nodes"], ("; depth<=3 to %d nodes" % b["full3"]) if b["full3"] else ""))
 
 
 _TEXT = {
